@@ -16,8 +16,9 @@ import (
 const imports = "From XV Require Import lib.Bytes C05.Model.\n"
 
 type runner struct {
-	res *hx.Result
-	cf  hx.CaseFile
+	res  *hx.Result
+	cf   hx.CaseFile
+	race raceWatch
 }
 
 func entry(c *out.Call) string {
@@ -123,6 +124,9 @@ func (x *runner) run(sc *out.Scenario) {
 			x.res.Fail(key(c, f.Clause), f.What, sc)
 		}
 	}
+	if rep := x.race.fresh(); rep != "" {
+		x.res.Fail("C05/concurrent/data-race", "the race detector reports unsynchronised access while this scenario ran: "+raceSummary(rep), sc)
+	}
 	if o.Comparable() && !hasProblem(o, "unattributable", "duplicated", "setup") {
 		x.cf.Add(o.Case(sc), sc)
 		x.res.Sample(sc)
@@ -153,8 +157,9 @@ func nsOf(o out.SessOpts) string {
 
 func main() {
 	o := hx.ParseFlags()
+	superviseRaces(o.Out)
 	res := hx.NewResult("C05")
-	x := &runner{res: res}
+	x := &runner{res: res, race: raceWatch{dir: o.Out}}
 	x.cf = hx.CaseFile{Name: "sess", Imports: imports, Ok: "scase_ok", Type: "scase"}
 	r := hx.NewRand(o.Seed)
 
